@@ -54,13 +54,16 @@ func (r *Rule) Inflected(s string) string {
 
 func (r *Rule) inflected(s string) string {
 	if res := r.compiledIrregular.FindStringSubmatch(s); len(res) >= 3 {
-		var buf strings.Builder
+		// (?i) also folds runes that strings.ToLower does not (e.g. U+017F), then the word is not in the map
+		if replacement, ok := r.irregularMap[strings.ToLower(res[2])]; ok {
+			var buf strings.Builder
 
-		buf.WriteString(res[1])
-		buf.WriteString(res[2][0:1])
-		buf.WriteString(r.irregularMap[strings.ToLower(res[2])][1:])
+			buf.WriteString(res[1])
+			buf.WriteString(res[2][0:1])
+			buf.WriteString(replacement[1:])
 
-		return buf.String()
+			return buf.String()
+		}
 	}
 
 	if r.compiledUninflected.MatchString(s) {
